@@ -97,7 +97,15 @@ func vSetDurGlobals() {
 }
 
 func vSetFloatGlobals() {
-	FloatingPointPrecision = zzverif.Int()
+	FloatingPointPrecision = vPrecision()
+}
+
+// vPrecision: any precision up to 400 digits (more only makes strconv produce more zeros, and a
+// native replay with an astronomically large precision would not terminate).
+func vPrecision() int {
+	p := zzverif.Int()
+	zzverif.Assume(p <= 400)
+	return p
 }
 
 type vObjErr struct{}
